@@ -329,12 +329,14 @@ struct World {
         else { closeSink(); open(); }
     }
 
+    std::set<std::string> unlinkTried; int unlinkTriedOp = -1; // rotated files this operation has already tried to unlink
     // ---- destructive-call monitor (C10's restart clause; also active in every history)
     void installMonitor()
     {
         vdev::preMutate = [this](const vdev::Call &c) {
             bool was = vdev::active; vdev::active = false;
             std::string nm = c.path.substr(c.path.rfind('/') + 1);
+            if (getenv("VFS_TRACE")) { std::string ls; for (auto &e : snapshot(dir)) ls += " " + e.name + "(" + std::to_string(e.bytes.size()) + ")"; fprintf(stderr, "TRACE op%d %s %s %s | dir:%s\n", opNo, c.name, nm.c_str(), c.path2.c_str(), ls.c_str()); }
             if (!strcmp(c.name, "unlink")) {
                 Scheme s = parseScheme(nm, cfg.shape);
                 auto slurp = [](const std::string &p, std::string &out) { FILE *f = fopen(p.c_str(), "rb"); if (!f) return false; char b[65536]; size_t n; out.clear(); while ((n = fread(b, 1, sizeof b, f)) > 0) out.append(b, n); fclose(f); return true; };
@@ -362,7 +364,9 @@ struct World {
                             Scheme t = parseScheme(e.name, cfg.shape);
                             if (!t.ok) continue;
                             count++;
-                            if (t.date < s.date || (t.date == s.date && t.index < s.index)) older = true;
+                            // an older file whose removal THIS operation has already asked for - and was refused by the file system - does not make
+                            // the next-oldest an illegal victim: the sink did take the oldest first and the file is beyond the retention count either way
+                            if ((t.date < s.date || (t.date == s.date && t.index < s.index)) && !(faultMode && unlinkTriedOp == opNo && unlinkTried.count(e.name))) older = true;
                         }
                         bool legalB = cfg.N > 0 && count > cfg.N - 1 && !older;
                         if (!legalB) {
@@ -373,6 +377,8 @@ struct World {
                         }
                         removals++;
                     }
+                    if (unlinkTriedOp != opNo) { unlinkTried.clear(); unlinkTriedOp = opNo; }
+                    unlinkTried.insert(nm);
                 }
             } else if (!strcmp(c.name, "rename") || !strcmp(c.name, "link")) {
                 std::string nm2 = c.path2.substr(c.path2.rfind('/') + 1);
@@ -878,6 +884,7 @@ void childRun(const Config &cfg, const std::vector<Op> &h, const Op &fin, const 
     static World w; // static: must outlive the crash hook
     g_world = &w;
     w.faultMode = true;
+    if (getenv("VFS_TRACE")) { std::string hs; for (auto &o : h) hs += std::string(1, o.k) + std::to_string(o.a) + " "; fprintf(stderr, "TRACE ==== %s history %s| %c%d crashAt=%ld failAt=%ld failFrom=%ld\n", cfg.str().c_str(), hs.c_str(), fin.k, fin.a, plan.crashAt, plan.failAt, plan.failFrom); }
     w.start(cfg, dir);
     vdev::log.clear(); vdev::logging = true;
     for (auto &o : h) { w.apply(o, wk); w.check(false); }
